@@ -145,6 +145,25 @@ def queryTree (t : TS) (cmd : String) (a : List (String × String)) : String :=
       | "droprange" => match (arg a "lo").bind parseBound, (arg a "hi").bind parseBound with
         | some lo, some hi => if boundsInverted lo hi then "empty" else showChoice (dropRangeChoose lo hi sv.version hid)
         | _, _ => "bad-request choose"
+      | "leveled" =>
+        -- Leveled (Tree/Leveled.lean): the float-dependent decisions are request arguments;
+        -- `scored=auto` uses the exact-rational scoring for the default ratio policy and reports the pick
+        match natArg a "l0", natArg a "target", (arg a "sizes").bind parseCuts, arg a "scored" with
+        | some l0, some target, some sizes, some sc =>
+          let p : LeveledParams BK := { l0Threshold := l0, targetSize := target, emptyKey := [] }
+          let size : Nat → Nat := fun id => ((sizes.find? (fun x => x.1 == id)).map (·.2)).getD 0
+          if sc == "auto" then
+            let pick := scoreLevels p sv.version hid size
+            showChoice (leveledChooseAt p sv.version hid size pick) ++ " pick=" ++
+              (if pick.needNewL1 then "1" else "0") ++ "," ++
+              (match pick.scored with | some i => toString i | none => "-")
+          else
+            let scored? : Option (Option Nat) := if sc == "-" then some none else sc.toNat?.map some
+            match scored?, natArg a "neednew" with
+            | some scored, some nn =>
+              showChoice (leveledChooseAt p sv.version hid size { needNewL1 := nn != 0, scored := scored })
+            | _, _ => "bad-request choose"
+        | _, _, _, _ => "bad-request choose"
       | _ => "bad-request choose"
     | _, _, _ => "bad-request choose"
   | "hwm" =>
